@@ -286,6 +286,113 @@ def r9_rank_fix(ctx, R='C17.R9'):
   ctx.check(R, bool(p0) and 'ndim' in ast.unparse(p0[0].test) and '==' in ast.unparse(p0[0].test), f.node, f, 'early return', 'parameters are passed through unchanged only when their rank equals the tensor rank')
 
 
+def r11_scalar_table(ctx):
+  """uniform_quantize / uniform_dequantize on scalars, exact arithmetic (dyadic
+  scales): q = clip(rint(x/scale) + zp) saturating at the (narrow) range, no
+  integer cast ever sees a value outside its type, dequantize(q) is within
+  scale/2 of x inside the range. Enumerated with the path interpreter; numpy's
+  integer casts are modelled as failing when the value does not fit."""
+  import fractions  # pylint: disable=g-import-not-at-top
+  from sa import absint  # pylint: disable=g-import-not-at-top
+  from sa.consteval import Obj  # pylint: disable=g-import-not-at-top
+  R = 'C17.R11'
+  rs = ctx.rule(R, 'scalar table (exact arithmetic): quantize yields in-range integers, saturates (never wraps), is monotone; dequantize(quantize(x)) within half a step; quantize(dequantize(q)) = q', floor=1)
+  UQ = 'algorithms.uniform_quantize.uniform_quantize_tensor'
+  q = ctx.repo.func(f'{UQ}:uniform_quantize')
+  dq = ctx.repo.func(f'{UQ}:uniform_dequantize')
+  ctx.instance(R)
+  hooks = {f'{UQ}:fix_quantization_params_rank': lambda a, k: a[1],
+           f'{UQ}:_is_valid_quantization_params': lambda a, k: None,
+           'np.issubdtype': lambda a, k: True}
+  it = absint.Interp(ctx.repo, ctx.ev, hooks=hooks)
+  F = fractions.Fraction
+  rs.exhaustive = True
+  for bits, sym, zp, scale in ((8, True, 0, F(1, 128)), (8, False, -128, F(1, 256)), (8, False, 5, F(1, 4)), (4, True, 0, F(1, 8)), (4, False, -3, F(1, 2)),
+                               (16, True, 0, F(1, 1 << 15)), (16, False, 7, F(1, 1 << 10)), (8, True, 0, F(1, 1 << 22))):
+    lo, hi = -(1 << (bits - 1)), (1 << (bits - 1)) - 1
+    if sym:
+      lo += 1
+    P = Obj('qtyping:UniformQuantParams', {'num_bits': bits, 'quantized_dimension': None, 'scale': scale, 'zero_point': zp, 'symmetric': sym,
+                                             'quantized_data': None, 'block_size': 0, 'hadamard': None})
+    xs = [F(0), scale, -scale, scale * F(5, 2), scale * F(7, 2), -scale * F(5, 2), scale * F(1, 2), scale * (hi - zp), scale * (hi - zp) + scale * F(1, 2), scale * (lo - zp),
+          scale * (lo - zp) - scale * 3, scale * (hi - zp + 40), F(10 ** 8), -F(10 ** 8), F(2 ** 40), -F(2 ** 40) * 3, F(5000)]
+    prev = None
+    for x in sorted(xs):
+      label = f'{bits}-bit {"symmetric" if sym else "asymmetric"} scale={scale} zp={zp}: x={float(x):.6g}'
+      outs = it.outcomes(q, [x, P], copy_args=False)
+      if len(outs) != 1 or outs[0].kind != 'return' or not absint._is_num(outs[0].value):  # pylint: disable=protected-access
+        ctx.check(R, False, q.node, q, label, f'quantize: {[o.short()[:90] for o in outs]} - a value is cast to an integer type before it was clipped into range (numpy wraps around), or the row is not decided')
+        continue
+      got = outs[0].value
+      r = x / scale + zp
+      ctx.check(R, got == int(got) and lo <= got <= hi, q.node, q, f'{label} -> {got}', f'quantize gives {got}, outside the integer range [{lo}, {hi}]')
+      if prev is not None:
+        ctx.check(R, got >= prev[1], q.node, q, f'{label} -> {got}', f'quantize is not monotone: q({float(prev[0]):.6g}) = {prev[1]} but q({float(x):.6g}) = {got}')
+      prev = (x, got)
+      if r >= hi:
+        ctx.check(R, got == hi, q.node, q, f'{label} -> {got}', f'a value at or above the range must saturate at {hi}')
+      if r <= lo:
+        ctx.check(R, got == lo, q.node, q, f'{label} -> {got}', f'a value at or below the range must saturate at {lo}')
+      back = it.outcomes(dq, [got, P], copy_args=False)
+      if len(back) == 1 and back[0].kind == 'return' and absint._is_num(back[0].value):  # pylint: disable=protected-access
+        v = F(back[0].value)
+        if lo <= r <= hi:
+          ctx.check(R, abs(v - x) <= scale / 2, dq.node, dq, label, f'dequantize(quantize(x)) = {float(v):.6g}: error {float(abs(v - x)):.3g} exceeds half a step ({float(scale / 2):.3g})')
+      else:
+        ctx.check(R, False, dq.node, dq, label, f'dequantize not decided: {[o.short()[:90] for o in back]}')
+    for k in (lo, lo + 1, -1, 0, 1, hi - 1, hi):
+      label = f'{bits}-bit {"symmetric" if sym else "asymmetric"} scale={scale} zp={zp}: code {k}'
+      d = it.outcomes(dq, [k, P], copy_args=False)
+      if len(d) != 1 or d[0].kind != 'return' or not absint._is_num(d[0].value):  # pylint: disable=protected-access
+        ctx.check(R, False, dq.node, dq, label, f'dequantize not decided: {[o.short()[:90] for o in d]}')
+        continue
+      ctx.check(R, F(d[0].value) == (k - zp) * scale, dq.node, dq, f'{label} -> {float(d[0].value):.6g}', f'dequantize must give (q - zp) * scale = {float((k - zp) * scale):.6g}')
+      b = it.outcomes(q, [d[0].value, P], copy_args=False)
+      ok = len(b) == 1 and b[0].kind == 'return' and b[0].value == k
+      ctx.check(R, ok, q.node, q, label, f'quantize(dequantize({k})) = {[o.short()[:40] for o in b]}, must be {k}')
+
+
+def r12_parameter_laws(ctx):
+  """tensor_zp_scale_from_min_max on a lattice of (min, max) with exact
+  rationals: scale finite and positive, zero point an in-range integer (0 when
+  symmetric), [min, max] covered up to half a step."""
+  import fractions  # pylint: disable=g-import-not-at-top
+  from sa import absint  # pylint: disable=g-import-not-at-top
+  R = 'C17.R12'
+  rs = ctx.rule(R, 'parameter laws (exact arithmetic): scale > 0, zero point an in-range integer and 0 when symmetric, [min, max] covered up to half a step', floor=1)
+  UQ = 'algorithms.uniform_quantize.uniform_quantize_tensor'
+  zs = ctx.repo.func(f'{UQ}:tensor_zp_scale_from_min_max')
+  ctx.instance(R)
+  F = fractions.Fraction
+  it = absint.Interp(ctx.repo, ctx.ev, hooks={})
+  rs.exhaustive = True
+  ranges = [(F(0), F(0)), (F(-1), F(1)), (F(0), F(6)), (F(-3), F(-1)), (F(2), F(5)), (F(-1, 10 ** 6), F(1, 10 ** 6)), (F(-1000), F(1, 1000)), (F(1, 10 ** 5), F(1, 10 ** 5)),
+            (F(-7, 3), F(11, 7)), (F(-10 ** 6), F(10 ** 6)), (F(-1, 3), F(0))]
+  for bits in (4, 8, 16):
+    for sym in (True, False):
+      lo, hi = -(1 << (bits - 1)), (1 << (bits - 1)) - 1
+      nlo = lo + 1 if sym else lo
+      for mn, mx in ranges:
+        label = f'{bits}-bit {"symmetric" if sym else "asymmetric"}: [{float(mn):.6g}, {float(mx):.6g}]'
+        outs = it.outcomes(zs, [mn, mx, bits, sym], copy_args=False)
+        if len(outs) != 1 or outs[0].kind != 'return' or not isinstance(outs[0].value, tuple) or len(outs[0].value) != 2:
+          ctx.check(R, False, zs.node, zs, label, f'not decided: {[o.short()[:100] for o in outs]}')
+          continue
+        zp, sc = outs[0].value
+        if not (absint._is_num(zp) and absint._is_num(sc)):  # pylint: disable=protected-access
+          ctx.check(R, False, zs.node, zs, label, f'not folded: zero point {zp!r}, scale {sc!r}')
+          continue
+        sc, zpf = F(sc), F(zp)
+        ctx.check(R, sc > 0, zs.node, zs, f'{label}: scale {float(sc):.6g}', 'the scale must be positive')
+        ctx.check(R, zpf.denominator == 1 and lo <= zpf <= hi and (zpf == 0 or not sym), zs.node, zs, f'{label}: zero point {zp}',
+                  'the zero point must be an integer inside the range and 0 for symmetric quantization')
+        if sc > 0:
+          lo_v, hi_v = (nlo - zpf) * sc, (hi - zpf) * sc
+          eps = sc / 10 ** 9   # the library divides by float(qmax - qmin): exact ties are decided up to float rounding
+          ctx.check(R, lo_v <= mn + sc / 2 + eps and hi_v >= mx - sc / 2 - eps, zs.node, zs, f'{label}: representable [{float(lo_v):.6g}, {float(hi_v):.6g}]',
+                    f'[min, max] is not covered up to half a step (scale {float(sc):.6g}, zero point {zp})')
+
+
 def run(ctx):
   ctx.assume('numpy functions are uninterpreted; np.multiply/add/subtract/divide are the arithmetic operators')
   shared.rule_clip_before_cast(ctx, 'C17.R1')
@@ -296,3 +403,5 @@ def run(ctx):
   r8_bias(ctx)
   r9_rank_fix(ctx)
   shared.rule_rebuild_completeness(ctx, 'C17.R10')
+  r11_scalar_table(ctx)
+  r12_parameter_laws(ctx)
